@@ -38,6 +38,14 @@ def cases(draw, name, max_len):
         src["falsy"] = draw(st.integers(0, 3)) == 0  # (class-based flavours only: the object is falsy)
     for spec in case["fns"].values():
         spec["fl"] = draw(st.sampled_from(["def", "async", "def", "async", "eqobj", "unhashobj", "aeqobj"]))
+    if name in ("min", "max", "reduce") and case["fns"] and case["srcs"] and case["srcs"][0]["items"] \
+            and draw(st.integers(0, 4)) == 0:
+        # the key / function itself appends to the list that is being read: the builtins walk the live list
+        # (sorted and the heap selections collect their input first: nothing is claimed for them)
+        case["srcs"][0]["fl"] = "list"
+        case["srcs"][0]["mutable"] = True
+        spec = sorted(case["fns"].items())[0][1]
+        spec["grows_source"] = {"at": draw(st.integers(1, len(case["srcs"][0]["items"]))), "key": draw(st.integers(0, 3))}
     return case
 
 
@@ -105,7 +113,8 @@ def check(case):
         if fresh != now:
             raise Violation(f"C02/{tool}/mutated-{name}", f"before={fresh} after={now}")
     src = ba.srcs[0] if ba.srcs else None
-    if src is not None and case["srcs"][0]["fl"] in ("list", "tuple", "tuplesub"):
+    grown = any(f.get("grows_source") for f in case["fns"].values())  # (then the CALLER's callable changed the list)
+    if src is not None and case["srcs"][0]["fl"] in ("list", "tuple", "tuplesub") and not grown:
         fresh, now = sig(mats(case["srcs"][0]["items"])), sig(list(src.obj))
         if fresh != now:
             raise Violation(f"C02/{tool}/mutated-input", f"before={fresh} after={now}")
